@@ -113,6 +113,11 @@ def generate(rng, tier):
     # frames over the WIRE (D33): the frame of a message - intact, truncated (below the trailer, below the fixed part, anywhere)
     # or with one bit flipped - arrives in 1-4 chunks under an announced content-length that is absent, true, or a lie (small,
     # huge, 2^63): the reader sizes nothing on the word of the peer; a bad frame is refused, no handler runs, nothing panics.
+    # messages beyond the reader's capped reservation (1 MiB announced ahead, D33): they arrive in dozens of DATA frames and the
+    # buffer has to grow with them; every byte must come back
+    base = len(cases)
+    for k, size in enumerate([1 << 20, (1 << 20) + 70000, 1310720, 3 << 20] if tier != 'thorough' else [1 << 20, (1 << 20) + 1, (1 << 20) + 16384, (1 << 20) + 70000, 1310720, 2 << 20, 3 << 20, 5 << 20, 9 << 20]):
+        cases.append(['case %d rpc' % (base + k), 'echo %d %d' % (rng.below(1 << 32), size), 'rawframe %d %d none %s actual' % (rng.below(1 << 30), size, rng.choice(['-', '100', '70000,900000'])), 'end'])
     base = len(cases)
     for k in range(dict(quick=40, thorough=1500, search=120)[tier]):
         size = rng.choice([0, 1, 20, 200, 5000])
